@@ -3,7 +3,26 @@
 import json, sys, os
 
 CHECKS = {
- "C03": dict(
+ "C01": dict(
+    technique="property-based testing: exhaustive small-word enumeration + proptest word ASTs run through the real shell on the simulated OS, compared with an independent reference expander (POSIX XCU 2.6) incl. `read` splitting",
+    text="Exploration: every word of <=2 units from a 94-unit alphabet x 24 states x 6 IFS values (quick: singles complete, pairs strided; thorough: complete) and random words of <=6 units with nested modifier words, random states and IFS; each rendered, lexed and expanded by the real shell; fields received by a probe built-in, side effects of ${x=w}, and error behaviour compared with a reference expander; `read` splitting against a reference splitter. Bounded search, not a proof.",
+    note="Trusted: the reference expander/splitter in harness/src/model/expand.rs. POSIX-unspecified corners are skipped and counted (listed in the evidence).",
+    design="4/C01"),
+ "C02": dict(
+    technique="property-based testing: proptest-generated programs (repaired to valid terminating ones, two surface renderings) run on the virtual shell vs a reference big-step interpreter; per-process probe traces and final status compared",
+    text="Exploration: random programs of the core command language incl. command-search probes; exact (probe id, $?) sequence of the main process, multiset of child-process sequences and final status must equal the reference interpreter's, under the canonical and a varied surface rendering. Bounded random search with shrinking.",
+    note="Trusted: the reference interpreter harness/src/model/interp.rs and its renderer. Only uses of break/continue/return that POSIX defines are generated.",
+    design="4/C02"),
+ "C10": dict(
+    technique="property-based testing: proptest programs with planted failures of every shell-error category and errexit toggles, run on the virtual shell vs a reference interpreter with the errexit rule and the shell-error table; EXIT-trap probe counted",
+    text="Exploration: the C02 generator plus failing commands of each documented category, errexit on/off/toggled, EXIT trap; trace up to the abort point, nothing after it, status (exact where documented, else non-zero), EXIT probe exactly once and last. Bounded random search with shrinking.",
+    note="Trusted: reference interpreter (errexit = option on and no dynamically enclosing condition context; shell-error table from docs/src/termination.md). Syntax-error categories are covered by C18, not here.",
+    design="4/C10"),
+ "C16": dict(
+    technique="property-based testing: exhaustive + proptest operation trees on VariableSet in lock-step with a naive stack-of-maps model (API half); script half pending",
+    text="Exploration: every operation tree of <=4 (quick) / <=5 (thorough) mutating operations over 2 names x 2 values x 8 action lists at nesting <=3, plus random trees of <=30 operations, executed on the real VariableSet and on a naive stack-of-maps model; every result, error and the whole observable state compared after each step.",
+    note="Trusted: the naive model in harness/src/props/c16a.rs (documented behaviour of get_or_new/unset/iter/env_c_strings). Covers the VariableSet API; the language-level half (temporary assignments, function locals, exported environment) is exercised only indirectly until the script driver is added.",
+    design="4/C16"), "C03": dict(
     technique="property-based testing: exhaustive small-tree enumeration + proptest random trees/token soup against an i128 reference evaluator; metamorphic constant-vs-variable relation",
     text="Exploration: every expression tree of depth<=2 over all operators on boundary operands (quick: depth 1 complete, depth 2 strided; thorough: complete), millions of random deeper trees, token soup and arbitrary text, each compared with an independent exact evaluator (value, final variables, or 'must be an error'). Bounded search, not a proof: absence of wrong results is only shown for what was generated.",
     note="Trusted: the harness' reference evaluator (C semantics on i128) and renderer. Unsequenced side effects, parenthesised lvalues and non-constant variable texts are skipped as unspecified.",
